@@ -426,7 +426,10 @@ def run_lqr_problem(ck, rng, prob, pid):
         disturb_time(rng, sysobj, prob)
         sysobj = copy.deepcopy(sysobj)
         ck.mark("solve/on-a-deep-copied-system")
-    lqr = pp.module.LQR(sysobj, prob.tQ, prob.tp, prob.T)
+    okc, lqr = ck.call("lqr_start", f"{prob.family}/{prob.dn}/constructor", "LQR.__init__",
+                       lambda: pp.module.LQR(sysobj, prob.tQ, prob.tp, prob.T), witness=prob.describe())
+    if not okc:
+        return          # a valid problem (positive-definite cost, any units) refused by the constructor: reported by ck.call
     handed_out = []          # (solve, output tuple, clones): results of earlier solves are the caller's
     n_solves = int(rng.integers(1, 6))
     x_init = prob.new_x_init(rng)
@@ -448,7 +451,9 @@ def run_lqr_problem(ck, rng, prob, pid):
             if rng.random() < 0.35:
                 x_init = prob.new_x_init(rng)
             if rng.random() < 0.3:
-                lqr = pp.module.LQR(sysobj, prob.tQ, prob.tp, prob.T)      # new solver, same system object
+                okc, lqr2 = ck.call("lqr_start", f"{prob.family}/{prob.dn}/constructor", "LQR.__init__",
+                                    lambda: pp.module.LQR(sysobj, prob.tQ, prob.tp, prob.T), witness=prob.describe())      # new solver, same system object
+                lqr = lqr2 if okc else lqr
         uk = str(rng.choice(["none", "zeros", "rand", "rand", "big", "hold"]))
         if uk in ("rand", "big", "hold"):
             ck.mark("solve/nonzero-u_traj")
